@@ -2,13 +2,14 @@
    C16: Private properties and annotations attach exactly to the values coded for.
    Model: Model/Priv.v (port of ProcessPrivateComponentLinkages, FindNodesLinkedViaSuffix, RemoveNodeFromTree) with the
    component -> property table regenerated from the source; get_annotations / get_suffix of Model/Tree.v.
-   PARTIAL: the value model withdraws all linked leaves at once; that a sequence of pointer-based removals on the heap
-   equals it is proved for one removal (all position cases) and evaluated for sequences (the open finding F21 is
-   exactly a sequence for which the heap disagrees).  That both exports show the attachment is the exporters' own
+   PARTIAL: the value model withdraws all linked leaves at once; that removing them one by one (nodes identified by
+   identity, any order) gives the same tree is proved (Proofs/RemoveSeq.v) for trees as values; the heap's stale
+   parent pointers after the in-place root overwrite are outside the value model (the open finding F21 is exactly
+   a sequence for which the heap disagrees).  That both exports show the attachment is the exporters' own
    theorems (C04-C09: private nodes in cells / beneath values) plus the evaluation of the implementation's exports
    against the attachment computed here. *)
 From Coq Require Import List Arith Bool Strings.Byte.
-From IGP Require Import Base.Str Model.Tree Model.Priv Proofs.PrivProof Gen.Wiring Tie.C16_tie.
+From IGP Require Import Base.Str Model.Tree Model.Priv Proofs.PrivProof Proofs.RemoveSeq Gen.Wiring Tie.C16_tie.
 Import ListNotations.
 
 (* the pairing of components and properties in the code is the documented one, in both passes *)
@@ -58,6 +59,17 @@ Print Assumptions C16_nothing_linked_nothing_changes.
 Theorem C16_removal_cases : forall n p rcur, In p (leaf_paths n) -> remove_at n p = prune_at [rev rcur ++ p] n rcur.
 Proof. exact remove_is_prune. Qed.
 Print Assumptions C16_removal_cases.
+
+(* a SEQUENCE of removals (nodes identified by identity, as the code does by pointer): removing the linked leaves one
+   by one, in any order, leaves exactly what the one-pass withdrawal of the model leaves ... *)
+Theorem C16_removals_in_any_order : forall ps n, option_map unlabel (bremove_all ps (label n [])) = prune_at ps n [].
+Proof. exact removals_in_any_order. Qed.
+Print Assumptions C16_removals_in_any_order.
+
+(* ... so the order in which the links were found is irrelevant *)
+Theorem C16_removal_order_irrelevant : forall xs ys t, NoDup (ids t) -> (forall i, In i xs <-> In i ys) -> bremove_all xs t = bremove_all ys t.
+Proof. exact bremove_order_irrelevant. Qed.
+Print Assumptions C16_removal_order_irrelevant.
 
 (* annotations: own one wins; inherited inside one annotation; never across the conjunction of separate annotations *)
 Theorem C16_annotation_scope : forall m pm po a,
